@@ -234,7 +234,7 @@ func (s *repoState) genrules() []string {
 
 // ---------------------------------------------------------------- real repository on disk
 
-type realRepo struct{ root, home, log, plz string }
+type realRepo struct{ root, home, log, plz, cache string } // cache "" = no artifact cache
 
 const catBody = `if [ -d $f ]; then (cd $f && find . -type f | LC_ALL=C sort | while read g; do echo $g; cat $g; done); else cat $f; fi`
 
@@ -288,7 +288,7 @@ func (r *realRepo) write(s *repoState) error {
 			os.RemoveAll(filepath.Join(r.root, e.Name()))
 		}
 	}
-	if err := os.WriteFile(filepath.Join(r.root, ".plzconfig"), []byte("[cache]\ndir = \n"), 0o644); err != nil {
+	if err := os.WriteFile(filepath.Join(r.root, ".plzconfig"), []byte("[cache]\ndir = "+r.cache+"\n"), 0o644); err != nil {
 		return err
 	}
 	for p, c := range s.files {
@@ -555,6 +555,16 @@ func eqList(a, b []string) bool {
 // classify names the root cause of a stale reuse: `then` is the view the stored pass was produced from, `now` the
 // current one.  The class predicates follow the coded pre-image: unframed rule text, no file names, directories
 // by content only, no_test_output not hashed.  Anything these do not explain is a new violation.
+// classifyAny: with an artifact cache a reused pass may stem from ANY earlier passing run of the label.
+func classifyAny(thens []view, now view) string {
+	for i := len(thens) - 1; i >= 0; i-- {
+		if c := classify(thens[i], now); c != "stale-result-despite-distinct-runtime-hash" {
+			return c
+		}
+	}
+	return "stale-result-despite-distinct-runtime-hash"
+}
+
 func classify(then, now view) string {
 	co := func(ts []string) []string {
 		o := make([]string, len(ts))
@@ -591,10 +601,12 @@ var entryNames = []string{"a", "b", "z"}
 var words = []string{"ok", "no"}
 
 type gen struct {
-	r   *lib.Rng
-	s   *repoState
-	ops []string
-	n   int
+	r     *lib.Rng
+	s     *repoState
+	ops   []string
+	n     int
+	cache bool // this history runs with [cache] dir configured
+	prev  map[string]string
 }
 
 func (g *gen) emit(op string) {
@@ -605,6 +617,12 @@ func (g *gen) emit(op string) {
 }
 
 func (g *gen) writeFile(p string) {
+	if old, ok := g.s.files[p]; ok {
+		if g.prev == nil {
+			g.prev = map[string]string{}
+		}
+		g.prev[p] = old
+	}
 	c := lib.Pick(g.r, textPool)
 	if strings.HasSuffix(p, "names.txt") {
 		c = lib.Pick(g.r, namesPool)
@@ -837,11 +855,29 @@ func (g *gen) tryEdit(run *lib.Run) bool {
 	tests, gr := g.s.tests(), g.s.genrules()
 	t := clone(g.s.targets[lib.Pick(g.r, tests)])
 	pkg := pkgOf(t.Label)
+	if g.cache && len(g.prev) > 0 && g.r.Chance(35) { // put a file back to what it was before its last edit (A -> B -> A)
+		var paths []string
+		for p := range g.prev {
+			if _, ok := g.s.files[p]; ok && g.s.files[p] != g.prev[p] {
+				paths = append(paths, p)
+			}
+		}
+		if len(paths) > 0 {
+			sort.Strings(paths)
+			p := lib.Pick(g.r, paths)
+			g.emit("file " + p + " " + hx(g.prev[p]))
+			run.Count("edit-file-content-back")
+			return true
+		}
+	}
 	switch k := g.r.Intn(20); {
 	case k <= 2: // edit the contents of a file some test can see (data file, file in a data dir, source of a dep)
 		var paths []string
 		for p := range g.s.files {
 			paths = append(paths, p)
+		}
+		if len(paths) == 0 {
+			return false
 		}
 		sort.Strings(paths)
 		g.writeFile(lib.Pick(g.r, paths))
@@ -920,11 +956,10 @@ func (g *gen) tryEdit(run *lib.Run) bool {
 			cand = gr
 		}
 		d := clone(g.s.targets[lib.Pick(g.r, cand)])
-		if strings.HasSuffix(d.Out, ".out") {
-			d.Out = strings.TrimSuffix(d.Out, ".out") + ".o2"
-		} else {
-			d.Out = strings.TrimSuffix(d.Out, ".o2") + ".out"
-		}
+		// always a name never used before: plz leaves the old output (with its stamp) in plz-out, so going BACK to an
+		// earlier name would legitimately find it up to date — a per-file memory the model does not keep
+		g.n++
+		d.Out = fmt.Sprintf("%s.o%d", nameOf(d.Label), g.n)
 		g.emit(g.targetOp(d))
 		run.Count("edit-rename-dep-output")
 		return true
@@ -943,6 +978,10 @@ func (g *gen) tryEdit(run *lib.Run) bool {
 			run.Count("edit-redefine-dep")
 		}
 		g.emit(g.targetOp(d))
+		return true
+	case (k == 16 || k == 17) && g.cache && g.r.Chance(70): // rm -rf plz-out (only interesting with the artifact cache)
+		g.ops = append(g.ops, "wipe")
+		run.Count("edit-wipe-plz-out")
 		return true
 	case k == 16: // the user removes a results file
 		g.ops = append(g.ops, "rmres "+t.Label)
@@ -1040,6 +1079,12 @@ func (g *gen) resplit(run *lib.Run, t *target) bool {
 func (g *gen) history(run *lib.Run, steps int) []string {
 	g.ops = []string{"reset"}
 	g.s = newState()
+	g.prev = nil
+	g.cache = g.r.Chance(35)
+	if g.cache {
+		g.ops = append(g.ops, "cacheon")
+		run.Count("history-with-artifact-cache")
+	}
 	for i, n := 0, 1+g.r.Intn(3); i < n; i++ {
 		g.emit(g.targetOp(g.newGenrule()))
 	}
@@ -1122,9 +1167,10 @@ func runHistory(idx int, ops []string, scratch, plz string) ([]result, []oracleF
 		counts["oracle:"+class]++
 	}
 	nfresh := 0
-	lastRes := map[string]string{}  // label -> outcome of its last incremental report
-	lastIncr := map[string]report{} // reports of the last incremental run (for the fresh comparison)
-	passView := map[string]view{}   // label -> what the test observed when its stored pass was produced
+	lastRes := map[string]string{}   // label -> outcome of its last incremental report
+	lastIncr := map[string]report{}  // reports of the last incremental run (for the fresh comparison)
+	passViews := map[string][]view{} // label -> what the test observed whenever a pass of it was stored
+	cacheMode := false
 	haveStored := map[string]bool{} // label -> a results file is on disk
 	lastEditedSince := map[string]bool{}
 	for _, op := range ops {
@@ -1140,6 +1186,27 @@ func runHistory(idx int, ops []string, scratch, plz string) ([]result, []oracleF
 			}
 			for l := range lastEditedSince {
 				lastEditedSince[l] = true
+			}
+			res = append(res, result{op, "ok", false})
+		case "cacheon":
+			if len(f) != 1 {
+				res = append(res, result{op, "bad-op", false})
+				continue
+			}
+			rr.cache = mk("cache")
+			cacheMode = true
+			res = append(res, result{op, "ok", false})
+		case "wipe":
+			if len(f) != 1 {
+				res = append(res, result{op, "bad-op", false})
+				continue
+			}
+			os.RemoveAll(filepath.Join(rr.root, "plz-out"))
+			for l := range haveStored {
+				haveStored[l] = false
+			}
+			for l := range lastEditedSince {
+				lastEditedSince[l] = true // the results file is gone: a cached report now needs the artifact cache
 			}
 			res = append(res, result{op, "ok", false})
 		case "rmout":
@@ -1224,7 +1291,7 @@ func runHistory(idx int, ops []string, scratch, plz string) ([]result, []oracleF
 				if rep.cached && rep.res != "pass" {
 					fail("failing-result-reported-as-cached", l+" reported "+rep.res+" [cached] at: "+op)
 				}
-				if rep.cached && lastRes[l] != "pass" {
+				if rep.cached && lastRes[l] != "pass" && (!cacheMode || (lastRes[l] != "" && !lastEditedSince[l])) {
 					fail("failing-result-reused", l+" reported cached although its previous run was '"+lastRes[l]+"' at: "+op)
 				}
 				if rep.cached && executed[l] > 0 {
@@ -1233,8 +1300,11 @@ func runHistory(idx int, ops []string, scratch, plz string) ([]result, []oracleF
 				if !rep.cached && executed[l] == 0 {
 					fail("fresh-report-but-not-executed", l+" at: "+op)
 				}
-				if lastRes[l] != "" && lastRes[l] != "pass" && executed[l] == 0 {
+				if lastRes[l] != "" && lastRes[l] != "pass" && executed[l] == 0 && (!cacheMode || !lastEditedSince[l]) {
 					fail("failing-test-not-executed-again", l+" did not pass before and was not executed at: "+op)
+				}
+				if rep.cached && !haveStored[l] {
+					counts["report-cached-from-artifact-cache"]++
 				}
 				switch {
 				case rep.cached:
@@ -1272,7 +1342,7 @@ func runHistory(idx int, ops []string, scratch, plz string) ([]result, []oracleF
 				_, e := os.Stat(rr.resultsPath(l))
 				haveStored[l] = e == nil
 				if !rep.cached && rep.res == "pass" && haveStored[l] {
-					passView[l] = rr.viewOf(s, l)
+					passViews[l] = append(passViews[l], rr.viewOf(s, l))
 				}
 				lastRes[l] = rep.res
 				lastEditedSince[l] = false
@@ -1298,6 +1368,9 @@ func runHistory(idx int, ops []string, scratch, plz string) ([]result, []oracleF
 			nfresh++
 			fr := &realRepo{root: mk(fmt.Sprintf("fresh%d/repo", nfresh)), home: mk(fmt.Sprintf("fresh%d/home", nfresh)),
 				log: filepath.Join(dir, fmt.Sprintf("fresh%d/log", nfresh)), plz: plz}
+			if cacheMode {
+				fr.cache = mk(fmt.Sprintf("fresh%d/cache", nfresh))
+			}
 			if err := fr.write(s); err != nil {
 				panic(err)
 			}
@@ -1347,7 +1420,7 @@ func runHistory(idx int, ops []string, scratch, plz string) ([]result, []oracleF
 					}
 					fail(class, note)
 				case inc.cached:
-					fail(classify(passView[l], vi), note)
+					fail(classifyAny(passViews[l], vi), note)
 				default:
 					fail("incremental-differs-from-fresh", note)
 				}
@@ -1382,7 +1455,7 @@ func main() {
 			ops = append(ops, g.history(r, 4+r.Rng.Intn(3))...)
 		}
 		// a malformed stream: both sides must reject it
-		ops = append(ops, "reset", "run", "test //p:t1 none - - - 1 0 zz", "test //p:t1 bogus - - - 1 0 tt", "fresh", "rmres", "target //p:g9 cat", "frobnicate 1")
+		ops = append(ops, "reset", "run", "test //p:t1 none - - - 1 0 zz", "test //p:t1 bogus - - - 1 0 tt", "fresh", "rmres", "target //p:g9 cat", "cacheon 1", "wipe x", "frobnicate 1")
 	}
 	hs := splitHistories(ops)
 	type hres struct {
